@@ -15,6 +15,7 @@ mod maccmd;
 mod macops;
 mod asyncdev;
 mod nbdev;
+mod phyops;
 
 fn dispatch(op: &str, a: &[&str]) -> String {
     match op {
@@ -45,6 +46,14 @@ fn main() {
         }
         if !toks.is_empty() && toks[0] == "adev" {
             let r = catch_unwind(AssertUnwindSafe(|| asyncdev::run_history(&line)));
+            match r {
+                Ok(s) => writeln!(out, "{s}").unwrap(),
+                Err(_) => writeln!(out, "PANIC").unwrap(),
+            }
+            continue;
+        }
+        if !toks.is_empty() && toks[0] == "phy" {
+            let r = catch_unwind(AssertUnwindSafe(|| phyops::run_line(&line)));
             match r {
                 Ok(s) => writeln!(out, "{s}").unwrap(),
                 Err(_) => writeln!(out, "PANIC").unwrap(),
